@@ -235,6 +235,111 @@ fn check_cert(ctx: &mut Ctx, key: &SignedSecretKey, name: &str, with_messages: b
             }
         }
     }
+    // one pass signed message with caller-defined subpackets that carry no Issuer Key ID: the OPS header
+    // still names the signer
+    {
+        use pgp::packet::{Subpacket, SubpacketData};
+        let hashed = vec![
+            Subpacket::regular(SubpacketData::SignatureCreationTime(pgp::types::Timestamp::from_secs(1_700_000_000))).expect("ts"),
+            Subpacket::regular(SubpacketData::IssuerFingerprint(key.primary_key.fingerprint())).expect("fp"),
+        ];
+        let mut b = MessageBuilder::from_bytes("", &b"hello"[..]);
+        b.sign_with_subpackets(&key.primary_key, Password::empty(), HashAlgorithm::Sha512, pgp::composed::SubpacketConfig::UserDefined { hashed, unhashed: vec![] });
+        if let Some(Ok(bytes)) = ctx.guarded("C13/msg-user-subpackets", || replay.clone(), || b.to_vec(&mut rng)) {
+            if let Ok(pk) = deframe(&bytes) {
+                for p in pk.iter().filter(|p| p.tag == 4) {
+                    if let Ok(ops) = rfc::sig::parse_ops(&p.body) {
+                        ctx.eval();
+                        ctx.seen("embedded", format!("ops-v{}-user-subpackets", ops.version));
+                        let want: &[u8] = if ops.version == 6 { &ref_fp } else { &ref_id };
+                        if ops.issuer != want {
+                            ctx.violation(
+                                format!("C13/embedded/ops-v{}/user-defined-subpackets", ops.version),
+                                format!("OPS issuer {} differs from reference {} when the signature carries caller-defined subpackets without an Issuer Key ID", hex::encode(&ops.issuer), hex::encode(want)),
+                                replay.clone(),
+                            );
+                        }
+                    }
+                }
+            }
+        }
+    }
+    // several recipients on one builder, named and anonymous in both orders: every PKESK carries its own
+    // recipient's id, or the wildcard if (and only if) that recipient was added anonymously
+    if let (Some(own), true) = (publ.public_subkeys.iter().zip(sub_refs.iter()).find(|(_, r)| matches!(r.alg, 1 | 18 | 25 | 26)), idx % 4 == 0 || idx < 16) {
+        let (own_sub, own_ref) = own;
+        let other = zoo::key(&Spec::simple(own_ref.version == 6, if own_ref.version == 6 { Alg::Ed25519 } else { Alg::Ed25519Legacy }, Some(Alg::X25519)), 78);
+        let other_pub = other.to_public_key();
+        if let Some(other_sub) = other_pub.public_subkeys.first() {
+            let other_ref = other_sub.key.to_bytes().ok().and_then(|b| RefPub::parse_prefix(&b).map(|x| x.0));
+            for v2 in [false, true] {
+                if v2 && own_ref.version != 6 {
+                    continue;
+                }
+                // (own named?, other named?, own first?)
+                for (own_named, other_named, own_first) in [(true, false, true), (false, true, true), (true, false, false), (false, true, false), (true, true, true), (false, false, true)] {
+                    let res = ctx.guarded("C13/encrypt-multi", || replay.clone(), || -> pgp::errors::Result<Vec<u8>> {
+                        macro_rules! add {
+                            ($b:expr) => {{
+                                let order: [(bool, bool); 2] = if own_first { [(true, own_named), (false, other_named)] } else { [(false, other_named), (true, own_named)] };
+                                for (is_own, named) in order {
+                                    match (is_own, named) {
+                                        (true, true) => $b.encrypt_to_key(&mut rng, &own_sub.key).map(|_| ())?,
+                                        (true, false) => $b.encrypt_to_key_anonymous(&mut rng, &own_sub.key).map(|_| ())?,
+                                        (false, true) => $b.encrypt_to_key(&mut rng, &other_sub.key).map(|_| ())?,
+                                        (false, false) => $b.encrypt_to_key_anonymous(&mut rng, &other_sub.key).map(|_| ())?,
+                                    }
+                                }
+                            }};
+                        }
+                        if v2 {
+                            let mut b = MessageBuilder::from_bytes("", &b"hi"[..]).seipd_v2(&mut rng, SymmetricKeyAlgorithm::AES128, pgp::crypto::aead::AeadAlgorithm::Ocb, pgp::crypto::aead::ChunkSize::C64B);
+                            add!(b);
+                            b.to_vec(&mut rng)
+                        } else {
+                            let mut b = MessageBuilder::from_bytes("", &b"hi"[..]).seipd_v1(&mut rng, SymmetricKeyAlgorithm::AES128);
+                            add!(b);
+                            b.to_vec(&mut rng)
+                        }
+                    });
+                    let Some(Ok(bytes)) = res else { continue };
+                    let Ok(pk) = deframe(&bytes) else { continue };
+                    let pkesks: Vec<_> = pk.iter().filter(|p| p.tag == 1).collect();
+                    ctx.eval();
+                    ctx.seen("embedded", format!("pkesk-multi-v{}", if v2 { 6 } else { 3 }));
+                    if pkesks.len() != 2 {
+                        ctx.violation("C13/embedded/pkesk-multi/count", format!("{} PKESK packets for two recipients", pkesks.len()), replay.clone());
+                        continue;
+                    }
+                    let order: [(bool, bool); 2] = if own_first { [(true, own_named), (false, other_named)] } else { [(false, other_named), (true, own_named)] };
+                    for (p, (is_own, named)) in pkesks.iter().zip(order) {
+                        let r: Option<&RefPub> = if is_own { Some(own_ref) } else { other_ref.as_ref() };
+                        let Some(r) = r else { continue };
+                        let (field, want): (Vec<u8>, Vec<u8>) = match p.body.first() {
+                            Some(3) => (p.body.get(1..9).unwrap_or(&[]).to_vec(), if named { r.key_id().to_vec() } else { vec![0u8; 8] }),
+                            Some(6) => {
+                                let l = *p.body.get(1).unwrap_or(&0) as usize;
+                                let mut w = vec![];
+                                if named {
+                                    w.push(r.version);
+                                    w.extend(r.fingerprint());
+                                }
+                                (p.body.get(2..2 + l).unwrap_or(&[]).to_vec(), w)
+                            }
+                            _ => continue,
+                        };
+                        if field != want {
+                            ctx.violation(
+                                format!("C13/embedded/pkesk-multi/{}", if named { "named-recipient-field-wrong" } else { "anonymous-recipient-not-wildcard" }),
+                                format!("two recipients (own named={own_named}, other named={other_named}, own first={own_first}, SEIPDv{}): PKESK for the {} recipient carries {} instead of {}", if v2 { 2 } else { 1 }, if is_own { "own" } else { "other" }, hex::encode(&field), hex::encode(&want)),
+                                replay.clone(),
+                            );
+                        }
+                    }
+                }
+            }
+        }
+    }
     // PKESK recipient field
     for (si, sk) in key.secret_subkeys.iter().enumerate() {
         let Some(rs) = sub_refs.get(si) else { continue };
